@@ -22,7 +22,9 @@
                                                  create_approx_matrices returns no matrix for an empty profile list), map_to_problem
                                                  (validate before mapping), read_reserved_times_index (parse_time)
      vrp-core/src/models/problem/fleet.rs     :: Fleet::new (assert!(!vehicles.is_empty()))
-     fleet_reader.rs :: create_transport_costs (with the f7d2f27 check "not enough error codes"), get_profile_index_map;
+     vrp-core/src/construction/enablers/reserved_time.rs :: create_reserved_times_fn as reached from DynamicTransportCost::new (required
+                                                 breaks of one shift of both kinds, or whose spans - duration NOT added - intersect: E0002)
+     fleet_reader.rs :: create_transport_costs (with the f7d2f27 check "not enough error codes" and the 7d3c5fe check "same length"), get_profile_index_map;
                                                  vrp-core costs.rs :: create_matrix_transport_cost(_with_fallback) (with the 17fc8e9 check
                                                  "square matrices of the same size"), TimeAgnosticMatrixTransportCost::new
                                                  (the E0002 conditions; run_transport)
@@ -390,12 +392,43 @@ Definition pre_validation_panics (has_indices : bool) (profiles : list string) (
 Definition approx_panics (d : doc) : bool := pre_validation_panics false (d_profiles d) [].
 Definition validate_approx (d : doc) : vres := if approx_panics d then VPanic else validate d.
 
+(* ---------- vrp-core reserved_time.rs :: create_reserved_times_fn, reached from DynamicTransportCost::new in get_problem_blocks ----------
+   (between read_reserved_times_index and read_jobs_with_extra_locks; an Err is reported as E0002 "check fleet definition") *)
+(* the ReservedTimeSpan of a required break: (is offset, (earliest, latest)); the duration is kept aside and never compared *)
+Definition req_span (b : brk) : option (bool * tw) :=
+  match b with
+  | BReqOff e l _ => Some (true, (e, l))
+  | BReqExact e l _ => match tm_val e, tm_val l with Some a, Some b => Some (false, (a, b)) | _, _ => None end
+  | _ => None
+  end.
+Fixpoint req_spans (bs : list brk) : list (bool * tw) :=
+  match bs with [] => [] | b :: r => match req_span b with Some s => s :: req_spans r | None => req_spans r end end.
+Fixpoint windows2_any {A} (f : A -> A -> bool) (l : list A) : bool :=
+  match l with
+  | a :: ((b :: _) as r) => f a b || windows2_any f r
+  | _ => false
+  end.
+Definition spans_fail (spans : list (bool * tw)) : bool :=
+  windows2_any (fun a b => negb (Bool.eqb (fst a) (fst b))) spans                       (* different time span types *)
+  || windows2_any intersects (sort_by_start (map snd spans)).                            (* reserved times have intersections *)
+(* one actor per (vehicle id, shift): a vehicle type without ids has no actor *)
+Definition reserved_fails (d : doc) : bool :=
+  existsb (fun v => match v_ids v with
+                    | [] => false
+                    | _ => existsb (fun s => spans_fail (req_spans (olist (sh_breaks s)))) (v_shifts v)
+                    end) (d_vehicles d).
+
 Inductive rres := ROk | RErr (cs : list Z) | RPanic.
+(* get_problem_blocks in order: read_fleet, read_reserved_times_index (panics), [create_transport_costs: approximated matrices always
+   fit, theorem C10_x_approx_matrices_always_fit], DynamicTransportCost::new (E0002), read_jobs_with_extra_locks (panics) *)
 Definition read (d : doc) : rres :=
   match validate_approx d with
   | VPanic => RPanic
   | VErr cs => RErr cs
-  | VOk => if reader_panics d then RPanic else ROk
+  | VOk => if fleet_panics d || reserved_times_panic d then RPanic
+           else if reserved_fails d then RErr [2]
+           else if jobs_panic d || conditional_panic d then RPanic
+           else ROk
   end.
 
 (* ---------- fleet_reader.rs :: create_transport_costs on supplied routing matrices (+ vrp-core create_matrix_transport_cost) ----------
@@ -416,11 +449,15 @@ Fixpoint error_loop (i : nat) (ec tt dd : list Z) : option (list Z * list Z) :=
       | _, _ => None
       end
   end.
-(* (durations, distances) of one matrix; None = Err("not enough error codes specified") (fewer codes than distances, f7d2f27)
-   or Err("invalid matrix index: i") *)
+(* (durations, distances) of one matrix; None = Err("not enough error codes specified") (fewer codes than distances, f7d2f27),
+   Err("error codes, travel times and distances must have the same length") (7d3c5fe) or Err("invalid matrix index: i")
+   (the last one cannot happen any more once the three lengths agree: theorem C10_matrix_step_spec) *)
 Definition matrix_data (m : matrix) : option (list Z * list Z) :=
   match m_errors m with
-  | Some ec => if (List.length ec <? List.length (m_dist m))%nat then None else error_loop 0 ec (m_travel m) (m_dist m)
+  | Some ec => if (List.length ec <? List.length (m_dist m))%nat then None
+               else if negb (List.length ec =? List.length (m_dist m))%nat
+                       || negb (List.length (m_travel m) =? List.length (m_dist m))%nat then None
+               else error_loop 0 ec (m_travel m) (m_dist m)
   | None => Some (m_travel m, m_dist m)
   end.
 (* (len as Float).sqrt().round() as usize *)
